@@ -100,13 +100,13 @@ func HashString(s string) uint64 {
 
 // OpRec is one harness-level operation (an API call) with its tight interval.
 type OpRec struct {
-	Thread int    `json:"thread"`
-	Name   string `json:"op"`
-	Arg    any    `json:"arg,omitempty"`
-	Res    any    `json:"res"`
-	Call   int64  `json:"call"`
-	Ret    int64  `json:"ret"`
-	Steps  int    `json:"steps"` // scheduling points inside the call
+	Thread  int    `json:"thread"`
+	Name    string `json:"op"`
+	Arg     any    `json:"arg,omitempty"`
+	Res     any    `json:"res"`
+	Call    int64  `json:"call"`
+	Ret     int64  `json:"ret"`
+	Steps   int    `json:"steps"` // scheduling points inside the call
 	emitted bool
 }
 
@@ -131,13 +131,13 @@ type Thread struct {
 	pendObj     unsafe.Pointer
 	pendEnabled func() bool
 
-	waitFor  map[int]int // fair yield: thread id -> its step count when we yielded
-	steps    int
-	yields   int // yields since the last write-like event of any thread
-	wepoch   int
-	sig      H
-	vc       VC
-	cur      *OpRec
+	waitFor map[int]int // fair yield: thread id -> its step count when we yielded
+	steps   int
+	yields  int // yields since the last write-like event of any thread
+	wepoch  int
+	sig     H
+	vc      VC
+	cur     *OpRec
 }
 
 type syncLoc struct {
@@ -148,13 +148,13 @@ type syncLoc struct {
 }
 
 type memLoc struct {
-	wT   int // thread of last plain write (-1 none)
-	wC   int32
-	wPC  uintptr
-	rC   [MaxThreads]int32 // plain reads
-	rPC  [MaxThreads]uintptr
-	awC  [MaxThreads]int32 // atomic writes
-	arC  [MaxThreads]int32 // atomic reads
+	wT  int // thread of last plain write (-1 none)
+	wC  int32
+	wPC uintptr
+	rC  [MaxThreads]int32 // plain reads
+	rPC [MaxThreads]uintptr
+	awC [MaxThreads]int32 // atomic writes
+	arC [MaxThreads]int32 // atomic reads
 }
 
 // PointInfo describes one scheduling decision to the strategy.
@@ -163,7 +163,7 @@ type PointInfo struct {
 	CurEnabled bool  // choosing another thread than Enabled[0] costs a preemption
 	Key        H     // state signature (happens-before signature + scheduler state)
 	Step       int
-	Choice     int   // > 0: not a thread choice but an environment choice among Choice alternatives (Enabled = 1..Choice)
+	Choice     int // > 0: not a thread choice but an environment choice among Choice alternatives (Enabled = 1..Choice)
 }
 
 type Exec struct {
@@ -172,27 +172,27 @@ type Exec struct {
 	Strategy func(p *PointInfo) int // returns an index into p.Enabled, or -1 to abandon the execution
 	OnState  func(x *Exec)          // optional read-only probe, called in sequential mode at every decision
 
-	ev       int64
-	steps    int
-	MaxSteps int
-	wepoch   int
-	locs     map[unsafe.Pointer]*syncLoc
-	mem      map[unsafe.Pointer]*memLoc
-	ret      H // accumulated returns (history precedence)
+	ev        int64
+	steps     int
+	MaxSteps  int
+	wepoch    int
+	locs      map[unsafe.Pointer]*syncLoc
+	mem       map[unsafe.Pointer]*memLoc
+	ret       H // accumulated returns (history precedence)
 	RaceCheck bool
 
-	aborting bool
-	Pruned   bool
-	Fail     *Failure
-	ctrl     chan struct{}
-	Hist     []*OpRec
-	Trace    []string // only when Tracing
-	Tracing  bool
-	ctrlVC   VC
-	enabledBuf []int
-	inStep     int
+	aborting    bool
+	Pruned      bool
+	Fail        *Failure
+	ctrl        chan struct{}
+	Hist        []*OpRec
+	Trace       []string // only when Tracing
+	Tracing     bool
+	ctrlVC      VC
+	enabledBuf  []int
+	inStep      int
 	daemonsOnly bool
-	Clock      int64 // abstract time in nanoseconds (vtime); advanced by ticker / timer threads only
+	Clock       int64 // abstract time in nanoseconds (vtime); advanced by ticker / timer threads only
 }
 
 func NewExec() *Exec {
@@ -230,7 +230,7 @@ func (t *Thread) main() {
 		if p := recover(); p != nil {
 			if !x.aborting {
 				st := string(debug.Stack())
-				x.fail("panic|"+panicSite(st), fmt.Sprintf("thread %s panicked: %v", t.Name, p)+"\n"+trimStack(st))
+				x.fail("panic|"+panicSite(st)+panicClass(p), fmt.Sprintf("thread %s panicked: %v", t.Name, p)+"\n"+trimStack(st))
 				t.done = true
 				x.abortFrom()
 			}
@@ -621,7 +621,7 @@ func Done(k Kind, obj unsafe.Pointer, arg uint64) {
 		x.raceAtomic(t, obj, true)
 		t.vc[t.ID]++
 	case KLock:
-		t.sig = t.sig.Mix(uint64(k)).MixH(l.w).MixH(l.r)
+		t.sig = t.sig.Mix(uint64(k), arg).MixH(l.w).MixH(l.r)
 		l.w, l.r = t.sig, H{}
 		t.vc.join(&l.vc)
 		t.vc.join(&l.rvc)
@@ -754,7 +754,7 @@ func Go(f func()) {
 		defer func() {
 			if p := recover(); p != nil && !x.aborting {
 				st := string(debug.Stack())
-				x.fail("escaped-panic|"+panicSite(st), fmt.Sprintf("a panic escaped from a goroutine started by golib (the process would terminate): %v\n%s", p, trimStack(st)))
+				x.fail("escaped-panic|"+panicSite(st)+panicClass(p), fmt.Sprintf("a panic escaped from a goroutine started by golib (the process would terminate): %v\n%s", p, trimStack(st)))
 				t.done = true
 				x.abortFrom()
 				t.exitNow()
@@ -959,6 +959,15 @@ func panicSite(stack string) string {
 		}
 	}
 	return "harness"
+}
+
+// panicClass adds the fixed misuse messages of package sync to a signature, so that a recorded
+// finding about one of them does not cover any other panic at the same site.
+func panicClass(p any) string {
+	if s, ok := p.(string); ok && strings.HasPrefix(s, "sync: ") {
+		return "|" + s
+	}
+	return ""
 }
 
 func trimStack(s string) string {
